@@ -101,7 +101,7 @@ def _prune(keep):
         return
     ds = [os.path.join(WORK, d) for d in os.listdir(WORK) if os.path.isdir(os.path.join(WORK, d))]
     ds.sort(key=lambda d: os.path.getmtime(d), reverse=True)
-    for d in ds[4:]:
+    for d in ds[48:]:
         if os.path.basename(d) != keep:
             shutil.rmtree(d, ignore_errors=True)
 
@@ -115,6 +115,12 @@ def prepare(verbose=False):
     stamp = os.path.join(wd, "ok")
     if os.path.exists(stamp):
         os.utime(wd)
+        return wd
+    os.makedirs(WORK, exist_ok=True)
+    import fcntl
+    lock = open(os.path.join(WORK, key + ".lock"), "w")
+    fcntl.flock(lock, fcntl.LOCK_EX)      # two checks started together on the same tree: one extracts, one waits
+    if os.path.exists(stamp):
         return wd
     t0 = time.time()
     if os.path.isdir(wd):
